@@ -121,3 +121,31 @@ MANIFEST_TEXT = {
          "Trusted: as C01; component/resource values are u32 in the crate and unbounded in the model.",
          "Coq proof (direct, per accessor) + model/implementation correspondence", "DESIGN.md §5 C14"),
 }
+
+PROPS['C11'] = P(
+    ['quiescent_after_every_tree', 'quiescent_between_trees', 'runner_invariant', 'tracker_invariant'],
+    ['recursion', 'stale', 'mixed'], 'quiescent', determined=True,
+    assumes=['data entities (DataEntityCounter / SystemEventData) being gone at quiescence is checked by the correspondence (snapshot data=0) and the m_quiescent monitor, not yet by a theorem',
+             'obs_indep_history ("a tree behaves the same whatever ran before") follows informally from quiescence + ticket-independence of observations; not stated as a theorem'])
+PROPS['C18'] = P(
+    ['never_panics', 'aborted_command_is_cleaned_up', 'remaining_registrations_work', 'still_quiescent'],
+    ['stale', 'lifetime', 'recursion', 'mixed'], 'stale', determined=False,
+    assumes=['Stuck 4 = Bevy B0003 (spawn command for an entity despawned before the command is applied) is user-level misuse of Bevy Commands::spawn; the generator issues system-spawning actions first in every deferred list (wf rule spawn_first)',
+             'panics inside code the model does not cover (Bevy internals) can only be exhibited by the harness (catch_unwind)',
+             'payload release for stale targets is C05 (correspondence + m_payloads monitor)'])
+PROPS['C02'] = P(
+    ['runner_invariant', 'root_frame_leaves_nothing', 'trees_run_to_completion', 'postponed_only_for_active'],
+    ['recursion', 'mixed', 'stale'], 'runs', determined=True,
+    assumes=['the counting form "exactly one start or abort per command" over the event log and termination are not yet theorems: they rest on the correspondence (runner event sink) and the m_runs monitor'])
+MANIFEST_TEXT['C11'] = (
+ "Machine-checked: for every program and every sequence of trees, when a top-level operation returns the tree counter is 0, the postponed-command buffer is empty, every system command has its callback back, all four trackers have no pending metadata and no reacting flag, and the despawn tracker holds no handle (run_quiescent_full), from two invariants proved for every interpreter instruction with a ghost calling context (exec_runner, exec_ticket). Tied to /repo by differential runs comparing the bookkeeping snapshot (hook) after every top-level op, plus the m_quiescent monitor on implementation logs.",
+ "Trusted: Coq kernel; model faithfulness (differential); Bevy semantics as modelled. Absence of leftover data entities and history-independence are not theorems yet (snapshot data=0 compared on every run).",
+ "Coq proof (invariants over the interpreter with ghost context) + model/implementation correspondence + monitor", "DESIGN.md §5 C11")
+MANIFEST_TEXT['C18'] = (
+ "Machine-checked: no program can make the model panic other than through Bevy's own B0003 spawn misuse (run_never_panics: setup never misses its tracker entry, no double start, callbacks present), an aborted command consumes exactly its own metadata, tables stay well formed and the tree ends quiescent. Tied to /repo by differential runs of the stale/lifetime profiles (operations on dead or never-spawned systems, entities, targets) under catch_unwind, with the m_panic, m_quiescent and m_payloads monitors.",
+ "Trusted: as C11. Stuck 4 (B0003) is excluded by the generator's spawn_first rule; panics in unmodelled Bevy code can only be seen by the harness.",
+ "Coq proof (never-Stuck corollary of the tracker invariant) + fault-style differential runs + monitors", "DESIGN.md §5 C18")
+MANIFEST_TEXT['C02'] = (
+ "Machine-checked for every program: the runner's stack/buffer/counter invariant (exec_runner) — commands are postponed only for targets whose frame is active, every buffer entry targets an active frame, at a root frame the buffer is already empty before the discard loop, and when the outermost flush returns nothing is unresolved (trees_run_to_completion). The exactly-once count per command and termination are partial: checked by the correspondence on the runner event stream (hook 2) and by the m_runs monitor.",
+ "Trusted: as C11. Partial: the per-command exactly-once count over the log and termination are not theorems.",
+ "Coq proof (runner invariant with ghost context) + model/implementation correspondence on runner events + monitor", "DESIGN.md §5 C02")
